@@ -134,9 +134,12 @@ Proof.
     destruct (t_vsock_closed s); intro H; injection H as <- _ _; [exact Hinv|].
     rewrite <- Er. apply flags_only_inv. exact Hinv.
   - destruct (writer_dropped s); [intro H; injection H as <- _ _; exact Hinv|].
-    unfold poll_shutdown. destruct (ring s) eqn:Er;
-    (destruct (t_vsock_closed s); intro H; injection H as <- _ _; [exact Hinv|]);
-    rewrite <- Er; apply flags_only_inv; exact Hinv.
+    unfold poll_shutdown. destruct (ring s) eqn:Er.
+    + destruct (t_vsock_closed s); [intro H; injection H as <- _ _; exact Hinv|].
+      destruct (writer_shutdown s); intro H; injection H as <- _ _;
+        rewrite <- Er; apply flags_only_inv; exact Hinv.
+    + destruct (t_vsock_closed s); intro H; injection H as <- _ _; [exact Hinv|].
+      rewrite <- Er; apply flags_only_inv; exact Hinv.
   - unfold drop_writer. destruct (writer_dropped s); intro H; injection H as <- _ _; [exact Hinv|].
     apply flags_only_inv; exact Hinv.
   - unfold mark_vsock_closed. intro H; injection H as <- _ _. apply flags_only_inv; exact Hinv.
@@ -182,7 +185,8 @@ Lemma shutdown_ok_ring_empty s s' w :
   poll_shutdown s = (s', UrOk, w) -> ring s = [] /\ t_vsock_closed s = true /\ s' = s.
 Proof.
   unfold poll_shutdown. destruct (ring s).
-  - destruct (t_vsock_closed s); [intro H; injection H as <- _; auto|discriminate].
+  - destruct (t_vsock_closed s); [intro H; injection H as <- _; auto|].
+    destruct (writer_shutdown s); discriminate.
   - destruct (t_vsock_closed s); discriminate.
 Qed.
 
@@ -205,13 +209,21 @@ Proof.
   intros H Hd. rewrite Hd in H. injection H as <- _ <-. auto.
 Qed.
 
-(* D2 on the model: poll_shutdown on an idle connection parks the writer but wakes nobody *)
-Lemma shutdown_idle_wakes_nobody_refuted :
-  exists s, ring s = [] /\ t_disp_waker s = true /\
-            let '(s', r, w) := poll_shutdown s in r = UrPending /\ w = [] /\ writer_shutdown s' = true.
+(* D2 repaired (fix: in /repo): the first poll_shutdown on an empty ring takes the dispatcher's waker
+   and fires it, exactly as mark_writer_dropped does; later calls only re-register the writer *)
+Lemma shutdown_idle_wakes_dispatcher s s' r w :
+  ring s = [] -> t_vsock_closed s = false -> writer_shutdown s = false -> t_disp_waker s = true ->
+  poll_shutdown s = (s', r, w) ->
+  r = UrPending /\ w = [TwDispatcher] /\ writer_shutdown s' = true /\ t_disp_waker s' = false.
 Proof.
-  exists (register_dispatcher_if_empty (tx_new 8)). vm_compute. repeat split.
+  unfold poll_shutdown. intros -> -> -> Hd H. rewrite Hd in H. injection H as <- <- <-. tsimpl. auto.
 Qed.
+
+Example shutdown_idle_example :
+  let s := register_dispatcher_if_empty (tx_new 8) in
+  ring s = [] /\ t_disp_waker s = true /\
+  let '(s', r, w) := poll_shutdown s in r = UrPending /\ w = [TwDispatcher] /\ writer_shutdown s' = true.
+Proof. vm_compute. repeat split. Qed.
 
 (* the boolean predicate holds of every model trace *)
 Lemma c19_ob_ok_model initial mx s o s' out w :
